@@ -85,6 +85,7 @@ def json_bytes_of(it, jz):
 # ------------------------------------------------------------------ installation
 def install_crypto(reg):
     em, bd, sf = reg.ext_models, reg.boundary, reg.spec_funcs
+    install_trace_extras(reg)
     reg.exc_bases.setdefault("UnicodeEncodeError", "UnicodeError")
     reg.exc_bases.setdefault("SPAKEError", "Exception")
 
@@ -328,6 +329,14 @@ def install_crypto(reg):
     sf["json_has"] = json_has
     sf["json_get"] = lambda it, j, key: VJson(OJ.v(z3.Select(J.d(to_json(j)), sz(key))))
 
+
+
+def install_trace_extras(reg):
+    sf = reg.spec_funcs
+
+    # implication without the case split that `implies` makes outside quantifiers (both sides must be total)
+    sf["imp"] = lambda it, a, b: VBool(z3.Implies(it.truth(a), it.truth(b)))
+
     def bcall_targets(it):
         return VList([VStr(f"{e[1][0]}.{e[1][1]}") for e in it.ctx.trace if e[0] == "bcall"])
 
@@ -448,6 +457,180 @@ def install_iter_funcs(reg):
         return evs[-1][1][2][i]
 
     sf["iter_bcall_arg"] = iter_bcall_arg
+
+
+# ------------------------------------------------------------------ twisted: Deferred / Failure / the eventual queue
+RES = "opaque[Result]"          # any Python value that travels through an observer (code, key, versions, Failure ...)
+DEF = "opaque[Deferred]"
+QCALL = "nt[QCall]"
+CALLT = "tuple[opaque[callable],opaque[Args],opaque[KwArgs]]"
+
+
+def install_twisted(reg):
+    """Deferred() -> a fresh opaque object; d.callback / d.errback are bound-method values; Failure(x) is an
+    injective constructor; the observers see the eventual queue through its interface only: an object `EQ` whose
+    eventually(f, arg) appends the call to the ghost sequence `calls` (EventualQueue.eventually itself is verified
+    against the same statement in C18)."""
+    from pyvc import values
+    values.NT_DEFS.setdefault("QCall", [("kind", "str"), ("d", DEF), ("arg", RES)])
+    em, bd, sf = reg.ext_models, reg.boundary, reg.spec_funcs
+    install_trace_extras(reg)
+    RS = opaque_sort("Result")
+    NORES = z3.Const("NoResult", RS)
+    is_failure = uf("is_failure", RS, BoolS)
+    is_exc = uf("is_exception", RS, BoolS)
+    failure_of = uf("failure_of", RS, RS)
+    failure_value = uf("failure_value", RS, RS)
+
+    def no_result(it):
+        it.ctx.assume(z3.Not(is_failure(NORES)))       # the sentinel is a plain object()
+        return VOpaque(NORES, "Result")
+
+    em["global:wormhole/observer.py:NoResult"] = no_result
+
+    def new_deferred(it, args, kw):
+        d = it.fresh(DEF, "deferred")
+        it.ctx.event("deferred.new", d)
+        return d
+
+    em["twisted.internet.defer.Deferred"] = new_deferred
+
+    def as_result(it, v):
+        v = it.force(v)
+        if isinstance(v, VOpaque) and v.name == "Result":
+            return v.z
+        if isinstance(v, VObj) and v.cls in it.reg.exc_bases:
+            a = [as_result(it, x) for x in v.fields.get("args", VTuple([])).items]
+            r = uf("exc_" + v.cls, *([RS] * len(a) + [RS]))(*a)
+            it.ctx.assume(z3.And(is_exc(r), z3.Not(is_failure(r)), r != NORES))
+            return r
+        raise OutOfSubset(f"value {v!r} used where an observer result is expected")
+
+    def new_failure(it, args, kw):
+        if not args:
+            raise OutOfSubset("Failure() of the current exception")
+        x = as_result(it, args[0])
+        r = failure_of(x)
+        # twisted's Failure derives from BaseException, not Exception
+        it.ctx.assume(z3.And(is_failure(r), z3.Not(is_exc(r)), failure_value(r) == x, r != NORES))
+        return VOpaque(r, "Result")
+
+    em["twisted.python.failure.Failure"] = new_failure
+
+    def isinstance_result(it, v, name):
+        short = name.split(".")[-1]
+        if short == "Failure":
+            return is_failure(v.z)
+        if short in ("Exception", "BaseException"):
+            return is_exc(v.z) if short == "Exception" else z3.Or(is_exc(v.z), is_failure(v.z))
+        return uf("isinstance_" + short, RS, BoolS)(v.z)
+
+    em["isinstance_opaque:Result"] = isinstance_result
+
+    # the queue as the observers see it: `at[0 .. n-1]` are the calls queued so far (an array and a length rather
+    # than a z3 sequence: frames of the form "the first n entries are unchanged" then chain by plain E-matching)
+    reg.class_fields["EQ"] = {"n": "int", "at": f"dict[int,{QCALL}]"}
+    QS = sort_of(QCALL)
+
+    def mk_qcall(kind, dz, az):
+        return QS.constructor(0)(z3.StringVal(kind), dz, az)
+
+    def eq_eventually(it, recv, meth, args, kwargs, fr):
+        f = args[0] if args else None
+        if not (isinstance(f, VBoundExt) and isinstance(f.recv, VOpaque) and f.recv.name == "Deferred"
+                and f.meth in ("callback", "errback") and len(args) == 2 and not kwargs):
+            raise OutOfSubset("eventually() of something other than d.callback / d.errback with one argument")
+        n, at = recv.fields["n"], recv.fields["at"]
+        it.setitem(at, n, from_z3(mk_qcall(f.meth, f.recv.z, as_result(it, args[1])), QCALL))
+        recv.fields["n"] = VInt(n.z + 1)
+        return NONE
+
+    bd["EQ.eventually"] = eq_eventually
+
+    def rz(v):
+        if isinstance(v, VOpt):
+            return rz(v.inner)
+        return v.z
+
+    def unfired(it, r):
+        it.ctx.assume(z3.Not(is_failure(NORES)))
+        return VBool(rz(r) == NORES)
+
+    sf["unfired"] = unfired
+    sf["is_failure"] = lambda it, r: VBool(is_failure(rz(r)))
+    sf["is_exception"] = lambda it, r: VBool(is_exc(rz(r)))
+    sf["failure_of"] = lambda it, r: VOpaque(failure_of(rz(r)), "Result")
+    sf["wormhole_closed"] = lambda it, r: VOpaque(uf("exc_WormholeClosed", RS, RS)(rz(r)), "Result")
+    sf["qcall"] = lambda it, kind, d, arg: from_z3(mk_qcall(it.concrete(kind), rz(d), rz(arg)), QCALL)
+    sf["same_queue"] = lambda it, a, b: VBool(z3.And(a.fields["n"].z == b.fields["n"].z,
+                                                     a.fields["at"].val == b.fields["at"].val))
+
+    def prefix(it, a, b):
+        elem = (a if isinstance(a, VSeq) else b).elem
+        t = T("seq", [elem])
+        return VBool(z3.PrefixOf(to_z3(a, t), to_z3(b, t)))
+
+    sf["prefix"] = prefix
+
+    def bcall_arg_is_method(it, name, k, i, meth):
+        name, k, i, meth = it.concrete(name), it.concrete(k), it.concrete(i), it.concrete(meth)
+        evs = [e for e in it.ctx.trace if e[0] == "bcall" and e[1][1] == name]
+        if k >= len(evs) or i >= len(evs[k][1][2]):
+            return VBool(False)
+        a = evs[k][1][2][i]
+        return VBool(isinstance(a, VFunc) and a.name == meth and a.bound is not None)
+
+    sf["bcall_arg_is_method"] = bcall_arg_is_method
+
+
+def install_eventual(reg):
+    """what EventualQueue._turn needs: stored calls are opaque callables with opaque argument packs; running one
+    may re-enter eventually() (append-only while the timer is set), may raise, does nothing else to the queue"""
+    from pyvc.interp import VStarred
+    sf = reg.spec_funcs
+    reg.boundary_returns["IReactorTime.callLater"] = "opaque[DelayedCall]"
+
+    def run_stored_call(it, f, args, kwargs):
+        pack = args[0].v if args and isinstance(args[0], VStarred) else None
+        kw = kwargs.get("**")
+        if pack is None or kw is None or len(args) != 1:
+            raise OutOfSubset("call of an opaque callable other than f(*args, **kwargs)")
+        it.ctx.event("ran", VTuple([f, pack, kw]))
+        q = getattr(it.reg, "cur_eq", None)
+        if q is not None:
+            calls, added = q.fields["_calls"], q.fields["_ghost_added"]
+            if not (isinstance(calls, VSeq) and isinstance(added, VSeq)):
+                raise OutOfSubset("re-entrant eventually() on a queue that is not a symbolic sequence here")
+            more = z3.Const(it.ctx.namer("queued_by_callback"), calls.z.sort())
+            calls.z = z3.Concat(calls.z, more)
+            added.z = z3.Concat(added.z, more)
+        if it.ctx.choose([z3.BoolVal(True), z3.BoolVal(True)], "stored-call-outcome") == 1:
+            it.raise_("Exception", VStr("callback failed"))
+        return NONE
+
+    reg.ext_models["call_opaque:callable"] = run_stored_call
+
+    def ran_event(it):
+        tr = it.ctx.trace
+        start = max([k for k, e in enumerate(tr) if e[0] == "loop-body-start"] + [-1])
+        evs = [e for e in tr[start + 1:] if e[0] == "ran"]
+        it.ctx.prove(z3.BoolVal(len(evs) == 1), "exactly-one-stored-call-run-per-iteration",
+                     {"kind": "trace", "definite": True, "src": f"each iteration runs exactly one stored call (found {len(evs)})"})
+        if not evs:
+            return it.fresh(CALLT, "no_call")
+        return evs[-1][1][0]
+
+    sf["ran_event"] = ran_event
+
+
+TRUSTED_TWISTED = [
+    "twisted Deferred(): a fresh object; d.callback / d.errback are only ever handed to the eventual queue by the observers",
+    "twisted Failure(x): injective constructor, an instance of Failure and not of Exception; NoResult (a plain object()) is not a Failure",
+    "the eventual queue as the observers see it: eventually(f, arg) appends (f, arg) to the queue and does nothing else "
+    "(EventualQueue.eventually is verified against this statement)",
+    "a stored call run by EventualQueue._turn may raise Exception, may call eventually() again (append-only: the timer is "
+    "set during a turn), and does not otherwise touch the queue",
+]
 
 
 TRUSTED_CRYPTO = [
